@@ -1,4 +1,5 @@
 mod density;
+mod fault_sweep;
 mod record;
 mod record_sampler;
 mod replay_nuts;
@@ -11,6 +12,7 @@ fn main() {
         "replay-nuts" => replay_nuts::main(rest),
         "record-chains" => record::main(rest),
         "record-sampler" => record_sampler::main(rest),
+        "fault-sweep" => fault_sweep::main(rest),
         _ => {
             eprintln!("usage: vh <replay-nuts|...> args");
             2
